@@ -57,6 +57,18 @@ def rule_installed(ctx: Ctx) -> None:
     simple = len(lp.body) == 1 and isinstance(lp.body[0], ast.Expr) and isinstance(lp.body[0].value, ast.Call) \
         and (A.call_name(lp.body[0].value) or "").endswith(".check") and not lp.orelse
     ctx.check(simple, "C02.2", "update evaluates every installed rule", up, lp, "plain loop over the rules", "the rule loop can skip a rule")
+    # ... on every path to the commit: no kind of update is exempt from the rules
+    gu = ctx.cfg(up)
+    ln_ = gu.nodes_for(lp)[0]
+    commits = [s_ for s_ in A.stores(up) if (A.dotted(s_.target) or "") in ("self.balances", "self.holds", "self.borrowed")]
+    for s_ in commits:
+        cn_ = gu.nodes_for(s_.stmt)[0]
+        pth = gu.path_avoiding(gu.entry, lambda n, cn_=cn_: n is cn_, lambda n: n is ln_, C.NO_EXC)
+        ctx.check(pth is None, "C02.2", "the rules are evaluated before every commit of the maps", up, s_.stmt, "the rule loop dominates the commit",
+                  f"'{ast.unparse(s_.stmt)[:50]}' can be reached without running the update rules (some updates are exempt): a debit that exceeds what is "
+                  "free can be committed, leaving available = balance - hold negative", detail={"path": C.fmt_path(pth) if pth else []},
+                  key_text=f"rules dominate {A.dotted(s_.target)}")
+    ctx.floor("C02.2", "commits of the ledger maps in update", len(commits), 3)
     # no other function lets callers reach the maps without the rules
     for fn in ctx.repo.all_funcs():
         if fn.module.modname.startswith("basana.backtesting") and fn.cls is not None and fn.cls.qualname != AB:
